@@ -29,6 +29,13 @@ def data : Prog α → List α
   | extend p xs => p.data ++ xs
   | merge l r => l.data ++ r.data
 
+/-- the same history over transformed observations (`x ↦ x*x`, `ln x`, `1/x`, `a − b`) -/
+def map {β : Type} (f : α → β) : Prog α → Prog β
+  | empty => empty
+  | append p x => append (p.map f) (f x)
+  | extend p xs => extend (p.map f) (xs.map f)
+  | merge l r => merge (l.map f) (r.map f)
+
 /-- number of elementary `kahan_add` steps performed along the history -/
 def steps : Prog α → Nat
   | empty => 0
